@@ -417,6 +417,17 @@ func (crashComp) Gen(rng *rand.Rand, tier string) [][]string {
 		nh, steps, nTick = 300, 60, 30
 	}
 	var hs [][]string
+	// directed: a batch whose encoded size is several MiB (beyond any buffer size an engine or a wrapper might split writes
+	// at): it must reach the disk as ONE atomic write all the same — every image taken during its flush is a flush boundary
+	for d, kind := range []string{"db", "serial"} {
+		h := []string{fmt.Sprintf("begin crash kind=%s batch=6 delay=3600 seed=%d", kind, 7700+d)}
+		h = append(h, "put 50 aa", "put 51 bb", "rm 50", "put 5a dd", "put 5b ee", "rm 5a") // a first, small batch
+		for i := 0; i < 6; i++ { // the second batch: six values of 1 MiB
+			h = append(h, fmt.Sprintf("put %02x rep:1048576:%02x", 0x52+i, 0xb0+i))
+		}
+		h = append(h, "put 51 cc", "rm 52", "close", "reopen")
+		hs = append(hs, h)
+	}
 	for i := 0; i < nh; i++ {
 		kind := pick(rng, "db", "serial")
 		batch := pick(rng, 1, 2, 3, 3, 5)
